@@ -41,12 +41,13 @@ type bpWorld struct {
 	dir   string // live data directory
 	image string // image directory (exists while an image is held)
 
-	poolHead   *simBlock // the head the pool was last initialised / reset to
-	signer     types.Signer
-	txs        map[common.Hash]*types.Transaction // every transaction the harness created (with sidecar where it has one)
-	limbo      map[common.Hash]uint64             // model: included-but-not-final pool transactions -> block number of inclusion
-	limboStale map[common.Hash]bool               // limbo entries whose recorded block number is that of an abandoned block
-	gasTip     uint64
+	poolHead         *simBlock // the head the pool was last initialised / reset to
+	signer           types.Signer
+	txs              map[common.Hash]*types.Transaction // every transaction the harness created (with sidecar where it has one)
+	limbo            map[common.Hash]uint64             // model: included-but-not-final pool transactions -> block number of inclusion
+	limboResurrected map[common.Hash]bool               // pooled transactions offloaded while the limbo still tracked an older entry of them
+	limboStale       map[common.Hash]bool               // limbo entries whose recorded block number is that of an abandoned block
+	gasTip           uint64
 
 	// store-event hook state (per operation)
 	events     int
@@ -264,7 +265,7 @@ func runBP(t *testing.T, pl any) *simcore.Result {
 		simcore.Harnessf("plan with %d accounts", len(p.Knobs.Accts))
 	}
 	logErrs.reset()
-	w := &bpWorld{p: p, res: res, txs: map[common.Hash]*types.Transaction{}, limbo: map[common.Hash]uint64{}, limboStale: map[common.Hash]bool{}, gasTip: p.Knobs.GasTip, log: simcore.NewHash()}
+	w := &bpWorld{p: p, res: res, txs: map[common.Hash]*types.Transaction{}, limbo: map[common.Hash]uint64{}, limboStale: map[common.Hash]bool{}, limboResurrected: map[common.Hash]bool{}, gasTip: p.Knobs.GasTip, log: simcore.NewHash()}
 	w.root = filepath.Join(scratchDir(), fmt.Sprintf("bp-%d", bpRunSeq.Add(1)))
 	os.RemoveAll(w.root)
 	w.dir, w.image = filepath.Join(w.root, "live"), filepath.Join(w.root, "image")
@@ -525,6 +526,38 @@ func (w *bpWorld) run() *simcore.Violation {
 		v := w.checkOp(op, info, B, A)
 		if v == nil {
 			v = w.checkLive(A)
+			if v != nil && v.Oracle == "nonce-gap" && info.newHead != nil {
+				// recorded finding, live variant: a reinjected reorged-out transaction
+				// below the new state nonce sits in front of the account's set when
+				// recheck tests for a dangling first nonce
+				for _, a := range w.chain.accts {
+					ai := w.chain.byAddr[a.addr]
+					next := info.newHead.model[ai].Nonce
+					got := A.byAcct[a.addr]
+					if len(got) == 0 || got[0].Nonce <= next {
+						continue
+					}
+					stale := false
+					for _, m := range B.byAcct[a.addr] {
+						stale = stale || m.Nonce < next
+					}
+					for _, tx := range info.discarded {
+						if from, _ := types.Sender(w.signer, tx); from == a.addr && tx.Nonce() < next {
+							if _, in := B.limboIx[tx.Hash()]; in {
+								stale = true
+							}
+						}
+					}
+					if stale {
+						v.Key = "nonce-gap:stale-entry-hides-front-gap"
+						v.Msg += " [a pooled or reinjected transaction of that account below the new state nonce was in front of the set when recheck tested for a dangling first nonce]"
+					}
+				}
+				if v.Key != "nonce-gap" && simcore.IsKnown(v.Key) {
+					w.res.KnownHit(v.Key)
+					return nil
+				}
+			}
 		}
 		if v != nil {
 			v.Msg = fmt.Sprintf("after op %d (%s): %s", i, op.Kind, v.Msg)
@@ -991,6 +1024,16 @@ func (w *bpWorld) checkLive(o *bpObs) *simcore.Violation {
 		w.res.Probe("limbo-entry-expected")
 		if _, ok := o.limboIx[h]; !ok {
 			v := simcore.Violf("limbo-lost", "transaction %x was pooled when block %d included it; that block is not final (final %d, head %d) but its blobs are no longer in the limbo", h[:4], blk, o.final, o.head.number())
+			if w.limboResurrected[h] {
+				v.Key = "limbo-lost:push-refused-on-resurrected-entry"
+				v.Msg += " [the limbo still tracked this hash from an earlier inclusion (entry resurrected by a crash image) when the pool offloaded it again; limbo.push refuses already tracked hashes, the old block number stayed and the entry was finalised by it]"
+				if simcore.IsKnown(v.Key) {
+					w.res.KnownHit(v.Key)
+					delete(w.limbo, h)
+					continue
+				}
+				return v
+			}
 			if w.limboStale[h] {
 				v.Key = "limbo-lost:stale-block-after-reinclusion"
 				v.Msg += " [a reorg moved the transaction to a block with a different number; the limbo kept the old number and finalised the entry by it]"
@@ -1278,6 +1321,16 @@ func (w *bpWorld) checkOp(op *BPOp, info *bpInfo, B, A *bpObs) *simcore.Violatio
 		}
 		for _, a := range w.chain.accts {
 			b, r := B.byAcct[a.addr], A.byAcct[a.addr]
+			// Init re-applies the minimum tip: a reset reinjects reorged-out
+			// transactions without looking at it, the restart then drops the first
+			// one below it and everything behind
+			for i, m := range b {
+				if m.ExecTipCap.Lt(uint256.NewInt(w.gasTip)) {
+					b = b[:i]
+					w.res.Probe("clean-restart-tip-cut")
+					break
+				}
+			}
 			if len(b) != len(r) && !(overCap && len(r) < len(b)) {
 				return simcore.Violf("clean-restart-contents", "account %x had %d pooled transactions before Close, %d after reopening", a.addr[:4], len(b), len(r))
 			}
@@ -1305,6 +1358,15 @@ func (w *bpWorld) checkOp(op *BPOp, info *bpInfo, B, A *bpObs) *simcore.Violatio
 		for h := range B.index {
 			if blk, ok := info.included[h]; ok {
 				w.limbo[h] = blk
+				// The limbo already tracked this transaction although it was pooled
+				// (an entry deleted earlier and resurrected by billy in a crash
+				// image): limbo.push refuses "already tracked" hashes, so the old
+				// entry with its old block number stays and is finalised by it.
+				if old, was := B.limboIx[h]; was && old != blk {
+					w.limboStale[h] = true
+					w.limboResurrected[h] = true
+					w.res.Probe("limbo-push-onto-resurrected-entry")
+				}
 			}
 		}
 		// limbo entries re-included by the adopted branch now belong to that block
